@@ -110,18 +110,42 @@ func (x *Value) CompareAndSwap(o, n any) bool {
 }
 
 // function forms
-func AddInt32(p *int32, d int32) int32    { vsched.Point(st, unsafe.Pointer(p)); return stdatomic.AddInt32(p, d) }
-func AddInt64(p *int64, d int64) int64    { vsched.Point(st, unsafe.Pointer(p)); return stdatomic.AddInt64(p, d) }
-func AddUint32(p *uint32, d uint32) uint32 { vsched.Point(st, unsafe.Pointer(p)); return stdatomic.AddUint32(p, d) }
-func AddUint64(p *uint64, d uint64) uint64 { vsched.Point(st, unsafe.Pointer(p)); return stdatomic.AddUint64(p, d) }
-func LoadInt32(p *int32) int32            { vsched.Point(ld, unsafe.Pointer(p)); return stdatomic.LoadInt32(p) }
-func LoadInt64(p *int64) int64            { vsched.Point(ld, unsafe.Pointer(p)); return stdatomic.LoadInt64(p) }
-func LoadUint32(p *uint32) uint32         { vsched.Point(ld, unsafe.Pointer(p)); return stdatomic.LoadUint32(p) }
-func LoadUint64(p *uint64) uint64         { vsched.Point(ld, unsafe.Pointer(p)); return stdatomic.LoadUint64(p) }
-func StoreInt32(p *int32, v int32)        { vsched.Point(st, unsafe.Pointer(p)); stdatomic.StoreInt32(p, v) }
-func StoreInt64(p *int64, v int64)        { vsched.Point(st, unsafe.Pointer(p)); stdatomic.StoreInt64(p, v) }
-func StoreUint32(p *uint32, v uint32)     { vsched.Point(st, unsafe.Pointer(p)); stdatomic.StoreUint32(p, v) }
-func StoreUint64(p *uint64, v uint64)     { vsched.Point(st, unsafe.Pointer(p)); stdatomic.StoreUint64(p, v) }
+func AddInt32(p *int32, d int32) int32 {
+	vsched.Point(st, unsafe.Pointer(p))
+	return stdatomic.AddInt32(p, d)
+}
+func AddInt64(p *int64, d int64) int64 {
+	vsched.Point(st, unsafe.Pointer(p))
+	return stdatomic.AddInt64(p, d)
+}
+func AddUint32(p *uint32, d uint32) uint32 {
+	vsched.Point(st, unsafe.Pointer(p))
+	return stdatomic.AddUint32(p, d)
+}
+func AddUint64(p *uint64, d uint64) uint64 {
+	vsched.Point(st, unsafe.Pointer(p))
+	return stdatomic.AddUint64(p, d)
+}
+func LoadInt32(p *int32) int32 { vsched.Point(ld, unsafe.Pointer(p)); return stdatomic.LoadInt32(p) }
+func LoadInt64(p *int64) int64 { vsched.Point(ld, unsafe.Pointer(p)); return stdatomic.LoadInt64(p) }
+func LoadUint32(p *uint32) uint32 {
+	vsched.Point(ld, unsafe.Pointer(p))
+	return stdatomic.LoadUint32(p)
+}
+func LoadUint64(p *uint64) uint64 {
+	vsched.Point(ld, unsafe.Pointer(p))
+	return stdatomic.LoadUint64(p)
+}
+func StoreInt32(p *int32, v int32) { vsched.Point(st, unsafe.Pointer(p)); stdatomic.StoreInt32(p, v) }
+func StoreInt64(p *int64, v int64) { vsched.Point(st, unsafe.Pointer(p)); stdatomic.StoreInt64(p, v) }
+func StoreUint32(p *uint32, v uint32) {
+	vsched.Point(st, unsafe.Pointer(p))
+	stdatomic.StoreUint32(p, v)
+}
+func StoreUint64(p *uint64, v uint64) {
+	vsched.Point(st, unsafe.Pointer(p))
+	stdatomic.StoreUint64(p, v)
+}
 func CompareAndSwapInt32(p *int32, o, n int32) bool {
 	vsched.Point(st, unsafe.Pointer(p))
 	return stdatomic.CompareAndSwapInt32(p, o, n)
